@@ -878,7 +878,7 @@ echo_handler(nng_http *conn, void *arg, nng_aio *aio)
 	atomic_fetch_add(&handler_calls, 1);
 	bb_printf(&out, "M %s\nU ", nng_http_get_method(conn));
 	bb_str(&out, nng_http_get_uri(conn));
-	bb_printf(&out, "\nV %s\n", nng_http_get_version(conn));
+	bb_str(&out, "\n");
 	while (nng_http_next_header(conn, &k, &v, &it)) {
 		bb_str(&out, "H ");
 		bb_str(&out, k);
@@ -919,6 +919,13 @@ server_up(void)
 		nng_http_handler_set_tree(h);
 		nng_http_handler_collect_body(h, true, 1 << 20);
 		if ((rv = nng_http_server_add_handler(srv, h)) != 0) vf_harness_fail("add_handler: %s", nng_strerror(rv));
+		// same echo below /nobody, but the request body is left to the server
+		// to discard (read-discard path, resumed across reads like any other)
+		if ((rv = nng_http_handler_alloc(&h, "/nobody", echo_handler)) != 0) vf_harness_fail("handler_alloc");
+		nng_http_handler_set_method(h, NULL);
+		nng_http_handler_set_tree(h);
+		nng_http_handler_collect_body(h, false, 0);
+		if ((rv = nng_http_server_add_handler(srv, h)) != 0) vf_harness_fail("add_handler: %s", nng_strerror(rv));
 		if ((rv = nng_http_server_start(srv)) == 0) break;
 		nng_http_server_release(srv);
 		if (rv != NNG_EADDRINUSE || attempt >= 100) vf_harness_fail("server_start: %s", nng_strerror(rv));
@@ -942,6 +949,7 @@ typedef struct {
 	bool modelled;
 	bool closing; // server will close after the response
 	bool head;
+	bool discard; // body goes to the handler that does not collect it
 	char desc[96];
 	marks m;
 } hreq;
@@ -965,11 +973,11 @@ canon_echo(const uint8_t *b, size_t len, bb *out)
 		size_t e = pos;
 		while (e < len && b[e] != '\n') e++;
 		if (e >= len) return false;
-		if (b[pos] == 'H' && stage == 3) {
+		if (b[pos] == 'H' && stage == 2) {
 			if (nl >= MAXH + 8) return false;
 			lines[nl] = strndup((const char *) b + pos, e - pos);
 			nl++;
-		} else if (b[pos] == 'B' && stage == 3) {
+		} else if (b[pos] == 'B' && stage == 2) {
 			qsort(lines, (size_t) nl, sizeof(char *), cmp_str);
 			for (int i = 0; i < nl; i++) {
 				bb_str(out, lines[i]);
@@ -978,7 +986,7 @@ canon_echo(const uint8_t *b, size_t len, bb *out)
 			}
 			bb_add(out, b + pos, len - pos);
 			return true;
-		} else if (stage < 3 && b[pos] == "MUV"[stage]) {
+		} else if (stage < 2 && b[pos] == "MU"[stage]) {
 			bb_add(out, b + pos, e - pos + 1);
 			stage++;
 		} else {
@@ -1009,7 +1017,7 @@ static void
 gen_request(vf_rng *r, hreq *q)
 {
 	static const char *methods[] = { "GET", "GET", "POST", "PUT", "DELETE", "OPTIONS", "FROB", "PATCH", "HEAD" };
-	char        mn[MAXH][64], mv[MAXH][700];
+	char        mn[MAXH][64], mv[MAXH][2400];
 	int         nm = 0;
 	const char *method = methods[vf_below(r, 9)];
 	char        uri[400];
@@ -1057,6 +1065,12 @@ gen_request(vf_rng *r, hreq *q)
 		for (size_t i = 0; i < bl; i++) bb_ch(&body, vf_chance(r, 1, 6) ? "\r\n: GET"[vf_below(r, 7)] : (int) vf_below(r, 256));
 	}
 
+	bool discard = has_body && plain && vf_chance(r, 1, 4);
+	if (discard) {
+		char tmp[420];
+		snprintf(tmp, sizeof(tmp), "/nobody%.380s", strcmp(uri, "/") == 0 ? "" : uri);
+		snprintf(uri, sizeof(uri), "%.390s", tmp);
+	}
 	bb_printf(&q->wire, "%s %s HTTP/1.%d\r\n", method, uri, minor);
 	mark(&q->m, q->wire.n);
 
@@ -1116,12 +1130,13 @@ gen_request(vf_rng *r, hreq *q)
 
 	q->closing  = minor == 0 || conn_close;
 	q->modelled = plain && !q->head;
-	snprintf(q->desc, sizeof(q->desc), "%s%s%s%s len=%zu", method, plain ? "" : "+odd-uri", minor == 0 ? "+http1.0" : "", conn_close ? "+close" : "", q->wire.n);
+	snprintf(q->desc, sizeof(q->desc), "%s%s%s%s%s len=%zu", method, plain ? "" : "+odd-uri", minor == 0 ? "+http1.0" : "", conn_close ? "+close" : "", discard ? "+body-discarded" : "", q->wire.n);
+	q->discard = discard;
 	if (q->modelled) {
 		char *lines[MAXH];
 		bb_printf(&q->expect, "M %s\nU ", method);
 		bb_str(&q->expect, uri);
-		bb_str(&q->expect, "\nV HTTP/1.1\n");
+		bb_str(&q->expect, "\n");
 		for (int k = 0; k < nm; k++) {
 			size_t l = strlen(mn[k]) + strlen(mv[k]) + 8;
 			lines[k] = malloc(l);
@@ -1133,8 +1148,8 @@ gen_request(vf_rng *r, hreq *q)
 			bb_ch(&q->expect, '\n');
 			free(lines[k]);
 		}
-		bb_printf(&q->expect, "B %zu\n", body.n);
-		bb_add(&q->expect, body.p, body.n);
+		bb_printf(&q->expect, "B %zu\n", discard ? (size_t) 0 : body.n);
+		if (!discard) bb_add(&q->expect, body.p, body.n);
 	}
 	bb_free(&body);
 }
@@ -1149,7 +1164,7 @@ sp_connect(void)
 	if (sp.fd < 0) vf_harness_fail("raw client cannot connect to the nng http server");
 }
 
-enum { SEG_WHOLE = 0, SEG_CUT, SEG_DRIBBLE, SEG_RANDOM, SEG_PACED };
+enum { SEG_WHOLE = 0, SEG_CUT, SEG_DRIBBLE, SEG_RANDOM, SEG_PACED, SEG_WDRIBBLE, SEG_WRANDOM, SEG_WCUT };
 
 // send one request under a segmentation, read the response.  Returns 1 with
 // response range, <=0 as rp_read_response
@@ -1166,6 +1181,10 @@ server_exchange(hreq *q, int seg, size_t a, size_t b2, uint64_t key, hmsg *m, si
 	case SEG_CUT: vf_io_plan(VF_IO_FULL, 0, VF_IO_CUT_ONCE, (long) a, key); break;
 	case SEG_DRIBBLE: vf_io_plan(VF_IO_FULL, 0, VF_IO_DRIBBLE, (long) a, key); break;
 	case SEG_RANDOM: vf_io_plan(VF_IO_FULL, 0, VF_IO_RANDOM, (long) a, key); break;
+	// nng's own writes shortened (its response / its request)
+	case SEG_WDRIBBLE: vf_io_plan(VF_IO_DRIBBLE, (long) a, VF_IO_FULL, 0, key); break;
+	case SEG_WRANDOM: vf_io_plan(VF_IO_RANDOM, (long) a, VF_IO_FULL, 0, key); break;
+	case SEG_WCUT: vf_io_plan(VF_IO_CUT_ONCE, (long) a, VF_IO_FULL, 0, key); break;
 	default: vf_io_plan(VF_IO_FULL, 0, VF_IO_FULL, 0, key); break;
 	}
 	int wr;
@@ -1182,7 +1201,9 @@ server_exchange(hreq *q, int seg, size_t a, size_t b2, uint64_t key, hmsg *m, si
 		wr = vf_fd_write_all(sp.fd, q->wire.p, q->wire.n, 5000);
 	}
 	(void) wr; // a failed write shows up as EOF on the read side
-	int rv = rp_read_response(&sp, q->head, m, rs, re, 10000);
+	uint64_t t0 = vf_now_ns();
+	int      rv = rp_read_response(&sp, q->head, m, rs, re, 100000);
+	if (vf_now_ns() - t0 > 10000000000ULL) vf_stat("http_slow_exchanges", 1);
 	vf_io_plan(VF_IO_FULL, 0, VF_IO_FULL, 0, 0);
 	if (q->closing && sp.fd >= 0) {
 		// the server closes after this response; the buffer stays valid
@@ -1285,6 +1306,15 @@ server_valid_case(long idx, vf_rng *r)
 			ok = server_check(&q, plan, rv, &m, rs, re, &base);
 			n++;
 		}
+		long ss0 = vf_io_short_sends();
+		for (int i = 0; i < 3 && ok; i++) {
+			size_t a = i == 0 ? vf_range(r, 1, 3) : i == 1 ? vf_range(r, 2, 300) : vf_range(r, 1, (uint32_t) base.n - 1);
+			snprintf(plan, sizeof(plan), "%s%zu", i == 0 ? "write-dribble" : i == 1 ? "write-random" : "write-cut@", a);
+			rv = server_exchange(&q, i == 0 ? SEG_WDRIBBLE : i == 1 ? SEG_WRANDOM : SEG_WCUT, a, 0, key + (uint64_t) i, &m, &rs, &re);
+			ok = server_check(&q, plan, rv, &m, rs, re, &base);
+			n++;
+		}
+		vf_stat("http_server_short_writes", vf_io_short_sends() - ss0);
 		int np = q.closing ? 1 : 3;
 		for (int i = 0; i < np && ok; i++) {
 			size_t a = vf_range(r, 1, (uint32_t) len - 1);
@@ -1303,7 +1333,8 @@ server_valid_case(long idx, vf_rng *r)
 		vf_violation("C16/http-server-segmentation/handler-count", "request {%s}: %ld exchanges but %ld handler invocations", q.desc, n, hc);
 	}
 	vf_stat("http_server_exchanges", n);
-	vf_class("http-server/valid/%s%s%s/%s", q.head ? "HEAD" : "non-HEAD", q.modelled ? "/modelled" : "/differential", q.closing ? "/closing" : "/keepalive", len <= 300 ? "exhaustive-cuts" : "sampled-cuts");
+	if (q.discard) vf_stat("http_server_body_discarded", n);
+	vf_class("http-server/valid/%s%s%s%s/%s", q.head ? "HEAD" : q.discard ? "body-discarded" : "non-HEAD", q.modelled ? "/modelled" : "/differential", q.closing ? "/closing" : "/keepalive", "", len <= 300 ? "exhaustive-cuts" : "sampled-cuts");
 	if ((idx % 61) == 0) vf_sample("{\"mode\":\"server\",\"request\":\"%s\",\"exchanges\":%ld,\"baseline_response_bytes\":%zu}", q.desc, n, base.n);
 	bb_free(&base);
 	bb_free(&q.wire);
@@ -1382,7 +1413,7 @@ server_bad_case(long idx, vf_rng *r)
 		outcome = "bad-response";
 	} else if (rv == -1) {
 		snprintf(key, sizeof(key), "C16/http-malformed-no-verdict/%s", b->cls);
-		vf_violation(key, "complete but malformed request (%s): neither an error status nor a closed connection within 10 s", b->cls);
+		vf_violation(key, "complete but malformed request (%s): neither an error status nor a closed connection within 100 s", b->cls);
 		outcome = "timeout";
 	} else if (rv == 1) {
 		if (m.status < 400) {
@@ -1417,7 +1448,7 @@ server_main(void)
 		if (!vf_want_case(i)) continue;
 		vf_rng r;
 		vf_rng_seed(&r, vf_seed, (uint64_t) i);
-		vf_watchdog(180);
+		vf_watchdog(400);
 		if (i % 4 == 3) {
 			server_bad_case(i, &r);
 		} else {
@@ -1427,7 +1458,7 @@ server_main(void)
 		if ((i % 200) == 199) {
 			rp_close(&sp);
 			server_down();
-			vf_nng_fini("C16");
+			vf_quiesce(2, 5000); /* nng_fini racing a poller-driven reap is C10's business */ vf_nng_fini("C16");
 			vf_nng_init(4, 1, 2);
 			server_up();
 		}
@@ -1435,7 +1466,7 @@ server_main(void)
 	rp_close(&sp);
 	server_down();
 	vf_stat("io_short_recvs", vf_io_short_recvs());
-	vf_nng_fini("C16");
+	vf_quiesce(2, 5000); /* nng_fini racing a poller-driven reap is C10's business */ vf_nng_fini("C16");
 }
 
 // =============================================================== client mode
@@ -1462,7 +1493,7 @@ client_up(void)
 	if (nng_http_client_alloc(&cl_cli, url) != 0) vf_harness_fail("client_alloc");
 	nng_url_free(url);
 	if (nng_aio_alloc(&cl_aio, NULL, NULL) != 0) vf_harness_fail("aio");
-	nng_aio_set_timeout(cl_aio, 10000);
+	nng_aio_set_timeout(cl_aio, 100000); // (a verdict needs "never", not "slow": see http_slow_exchanges)
 }
 
 static void
@@ -1506,6 +1537,7 @@ typedef struct {
 	bb   expect; // canonical decode (empty if not modelled)
 	marks m;
 	bool head;
+	bool manual; // nng_http_write_request / read_response / read_all instead of nng_http_transact
 	char desc[96];
 } ctxn;
 
@@ -1515,7 +1547,7 @@ gen_txn(vf_rng *r, ctxn *t)
 	static const char *methods[] = { "GET", "GET", "POST", "PUT", "DELETE", "HEAD" };
 	static const int   codes[]   = { 200, 200, 201, 202, 299, 400, 404, 500, 503, 301, 600, 999 };
 	static const char *reasons[] = { NULL, NULL, "Fine", "", "Very Custom Reason-Phrase 42", "OK" };
-	char mn[MAXH][64], mv[MAXH][700];
+	char mn[MAXH][64], mv[MAXH][2400];
 	int  nm = 0;
 	memset(t, 0, sizeof(*t));
 	snprintf(t->method, sizeof(t->method), "%s", methods[vf_below(r, 6)]);
@@ -1635,7 +1667,8 @@ gen_txn(vf_rng *r, ctxn *t)
 	bb_printf(&t->expect, "B %zu\n", ebl);
 	if (ebl) bb_add(&t->expect, body.p, ebl);
 	static const char *fn[] = { "content-length", "chunked", "content-length-0", "no-body", "head" };
-	snprintf(t->desc, sizeof(t->desc), "%s -> %d %s http1.%d resp=%zu", t->method, code, fn[framing], minor, t->resp.n);
+	t->manual = (framing == 0 || framing == 2 || framing == 3) && vf_chance(r, 1, 3);
+	snprintf(t->desc, sizeof(t->desc), "%s -> %d %s http1.%d resp=%zu%s", t->method, code, fn[framing], minor, t->resp.n, t->manual ? " manual-api" : "");
 	bb_free(&body);
 	bb_free(&chunked);
 }
@@ -1707,8 +1740,13 @@ client_exchange(ctxn *t, int seg, size_t a, size_t b2, uint64_t key, const char 
 	nng_http_set_uri(cl_conn, t->uri, NULL);
 	for (int i = 0; i < t->nh; i++) nng_http_set_header(cl_conn, t->hn[i], t->hv[i]);
 	if (t->body.n) nng_http_copy_body(cl_conn, t->body.p, t->body.n);
-	nng_http_transact(cl_conn, cl_aio);
+	// plans that shorten nng's writes must be in force while it sends the request
+	if (seg == SEG_WDRIBBLE) vf_io_plan(VF_IO_DRIBBLE, (long) a, VF_IO_FULL, 0, key);
+	if (seg == SEG_WRANDOM) vf_io_plan(VF_IO_RANDOM, (long) a, VF_IO_FULL, 0, key);
+	if (seg == SEG_WCUT) vf_io_plan(VF_IO_CUT_ONCE, (long) a, VF_IO_FULL, 0, key);
+	if (t->manual) nng_http_write_request(cl_conn, cl_aio); else nng_http_transact(cl_conn, cl_aio);
 	if (!client_read_request(t, plan)) {
+		vf_io_plan(VF_IO_FULL, 0, VF_IO_FULL, 0, 0);
 		nng_aio_cancel(cl_aio);
 		nng_aio_wait(cl_aio);
 		client_disconnect();
@@ -1718,7 +1756,22 @@ client_exchange(ctxn *t, int seg, size_t a, size_t b2, uint64_t key, const char 
 	case SEG_CUT: vf_io_plan(VF_IO_FULL, 0, VF_IO_CUT_ONCE, (long) a, key); break;
 	case SEG_DRIBBLE: vf_io_plan(VF_IO_FULL, 0, VF_IO_DRIBBLE, (long) a, key); break;
 	case SEG_RANDOM: vf_io_plan(VF_IO_FULL, 0, VF_IO_RANDOM, (long) a, key); break;
+	// nng's own writes shortened (its response / its request)
+	case SEG_WDRIBBLE: vf_io_plan(VF_IO_DRIBBLE, (long) a, VF_IO_FULL, 0, key); break;
+	case SEG_WRANDOM: vf_io_plan(VF_IO_RANDOM, (long) a, VF_IO_FULL, 0, key); break;
+	case SEG_WCUT: vf_io_plan(VF_IO_CUT_ONCE, (long) a, VF_IO_FULL, 0, key); break;
 	default: vf_io_plan(VF_IO_FULL, 0, VF_IO_FULL, 0, key); break;
+	}
+	if (t->manual) {
+		// the request is out; now read the response head through the public API
+		nng_aio_wait(cl_aio);
+		if (nng_aio_result(cl_aio) != 0) {
+			int wrv = nng_aio_result(cl_aio);
+			vf_io_plan(VF_IO_FULL, 0, VF_IO_FULL, 0, 0);
+			client_disconnect();
+			return wrv;
+		}
+		nng_http_read_response(cl_conn, cl_aio);
 	}
 	if (seg == SEG_PACED) {
 		size_t c1 = a, c2 = b2 > a ? b2 : a;
@@ -1732,10 +1785,34 @@ client_exchange(ctxn *t, int seg, size_t a, size_t b2, uint64_t key, const char 
 	} else {
 		vf_fd_write_all(cp.fd, t->resp.p, t->resp.n, 5000);
 	}
+	uint64_t t0 = vf_now_ns();
 	nng_aio_wait(cl_aio);
+	if (vf_now_ns() - t0 > 10000000000ULL) vf_stat("http_slow_exchanges", 1);
+	int      rv    = nng_aio_result(cl_aio);
+	uint8_t *mbody = NULL;
+	size_t   mlen  = 0;
+	if (rv == 0 && t->manual) {
+		// entity body: the application's job with this API
+		const char *cl = nng_http_get_header(cl_conn, "Content-Length");
+		mlen = cl != NULL ? (size_t) strtoul(cl, NULL, 10) : 0;
+		if (mlen > 0) {
+			nng_iov iov;
+			mbody       = malloc(mlen);
+			iov.iov_buf = mbody;
+			iov.iov_len = mlen;
+			nng_aio_set_iov(cl_aio, 1, &iov);
+			nng_http_read_all(cl_conn, cl_aio);
+			nng_aio_wait(cl_aio);
+			rv = nng_aio_result(cl_aio);
+			if (rv == 0 && nng_aio_count(cl_aio) != mlen) {
+				vf_violation("C16/http-client-api/read-all-count", "txn {%s} plan %s: nng_http_read_all of %zu bytes completed with count %zu", t->desc, plan, mlen, nng_aio_count(cl_aio));
+			}
+		}
+		vf_stat("http_client_manual_exchanges", 1);
+	}
 	vf_io_plan(VF_IO_FULL, 0, VF_IO_FULL, 0, 0);
-	int rv = nng_aio_result(cl_aio);
 	if (rv != 0) {
+		free(mbody);
 		client_disconnect();
 		return rv;
 	}
@@ -1761,8 +1838,13 @@ client_exchange(ctxn *t, int seg, size_t a, size_t b2, uint64_t key, const char 
 		free(lines[i]);
 	}
 	nng_http_get_body(cl_conn, &body, &blen);
+	if (t->manual) {
+		body = mbody;
+		blen = mlen;
+	}
 	bb_printf(out, "B %zu\n", blen);
 	if (blen) bb_add(out, body, blen);
+	free(mbody);
 	return 0;
 }
 
@@ -1841,6 +1923,15 @@ client_valid_case(long idx, vf_rng *r)
 			ok = client_check(&t, plan, rv, &got, &base, false);
 			n++;
 		}
+		long ss0 = vf_io_short_sends();
+		for (int i = 0; i < 3 && ok; i++) {
+			size_t a = i == 0 ? vf_range(r, 1, 3) : i == 1 ? vf_range(r, 2, 300) : vf_range(r, 1, (uint32_t) (60 + t.body.n));
+			snprintf(plan, sizeof(plan), "%s%zu", i == 0 ? "write-dribble" : i == 1 ? "write-random" : "write-cut@", a);
+			rv = client_exchange(&t, i == 0 ? SEG_WDRIBBLE : i == 1 ? SEG_WRANDOM : SEG_WCUT, a, 0, key + (uint64_t) i, plan, &got);
+			ok = client_check(&t, plan, rv, &got, &base, false);
+			n++;
+		}
+		vf_stat("http_client_short_writes", vf_io_short_sends() - ss0);
 		for (int i = 0; i < 3 && ok; i++) {
 			size_t a = vf_range(r, 1, (uint32_t) len - 1);
 			size_t b = vf_chance(r, 1, 2) ? a : vf_range(r, (uint32_t) a, (uint32_t) len - 1);
@@ -1855,7 +1946,7 @@ client_valid_case(long idx, vf_rng *r)
 	}
 	vf_stat("http_client_exchanges", n);
 	const char *fr = strstr(t.desc, "chunked") ? "chunked" : strstr(t.desc, "head") ? "head" : strstr(t.desc, "content-length-0") ? "clen0" : strstr(t.desc, "no-body") ? "nobody" : "clen";
-	vf_class("http-client/valid/%s/%s", fr, len <= 300 ? "exhaustive-cuts" : "sampled-cuts");
+	vf_class("http-client/valid/%s%s/%s", fr, t.manual ? "/manual-api" : "", len <= 300 ? "exhaustive-cuts" : "sampled-cuts");
 	if ((idx % 61) == 0) vf_sample("{\"mode\":\"client\",\"txn\":\"%s\",\"exchanges\":%ld}", t.desc, n);
 	bb_free(&got);
 	bb_free(&base);
@@ -1921,7 +2012,7 @@ client_bad_case(long idx, vf_rng *r)
 		outcome = "accepted";
 	} else if (rv == NNG_ETIMEDOUT) {
 		snprintf(key, sizeof(key), "C16/http-client-malformed-no-verdict/%s", b->cls);
-		vf_violation(key, "complete malformed response (%s): transaction neither failed nor completed within 10 s", b->cls);
+		vf_violation(key, "complete malformed response (%s): transaction neither failed nor completed within 100 s", b->cls);
 		outcome = "timeout";
 	} else if (rv == -1) {
 		outcome = "request-problem";
@@ -1945,7 +2036,7 @@ client_main(void)
 		if (!vf_want_case(i)) continue;
 		vf_rng r;
 		vf_rng_seed(&r, vf_seed, (uint64_t) i);
-		vf_watchdog(180);
+		vf_watchdog(400);
 		if (i % 4 == 3) {
 			client_bad_case(i, &r);
 		} else {
@@ -1954,14 +2045,14 @@ client_main(void)
 		vf_stat("cases", 1);
 		if ((i % 200) == 199) {
 			client_down();
-			vf_nng_fini("C16");
+			vf_quiesce(2, 5000); /* nng_fini racing a poller-driven reap is C10's business */ vf_nng_fini("C16");
 			vf_nng_init(4, 1, 2);
 			client_up();
 		}
 	}
 	client_down();
 	vf_stat("io_short_recvs", vf_io_short_recvs());
-	vf_nng_fini("C16");
+	vf_quiesce(2, 5000); /* nng_fini racing a poller-driven reap is C10's business */ vf_nng_fini("C16");
 }
 
 
@@ -1974,7 +2065,7 @@ main(int argc, char **argv)
 	if (!strcmp(vf_mode, "chunk")) {
 		vf_nng_init(2, 1, 1);
 		chunk_main();
-		vf_nng_fini("C16");
+		vf_quiesce(2, 5000); /* nng_fini racing a poller-driven reap is C10's business */ vf_nng_fini("C16");
 	} else if (!strcmp(vf_mode, "server")) {
 		server_main();
 	} else if (!strcmp(vf_mode, "client")) {
